@@ -98,7 +98,7 @@ func init() {
 		"strings.Split":                             effStringsSplit,
 		"fmt.Errorf":                                effNonNilErr,
 		"errors.New":                                effNonNilErr,
-		"strings.LastIndex":                         effStringsIndex,
+		"strings.LastIndex":                         effStringsLastIndex,
 		"strings.HasPrefix":                         ufEffect("strings.HasPrefix", sBool),
 		"strings.ToLower":                           keepsAbsence("strings.ToLower"),
 		"strings.TrimSpace":                         keepsAbsence("strings.TrimSpace"),
@@ -206,6 +206,18 @@ func effStringsIndex(fe *FnEnc, st *State, callee *ssa.Function, args []RV, pos 
 	r := Term{app("strings.Index", a, b), sInt}
 	if !fe.dry {
 		r = fe.define("idx", r)
+		fe.emit(fmt.Sprintf("(assert (and (>= %s (- 1)) (<= (+ %s (strlen %s)) (strlen %s))))", r.S, r.S, b.S, a.S))
+	}
+	return one(r)
+}
+
+// strings.LastIndex is its own function (first and last occurrence differ as soon as the separator occurs twice)
+func effStringsLastIndex(fe *FnEnc, st *State, callee *ssa.Function, args []RV, pos token.Pos) []RV {
+	a, b := fe.val(args[0]), fe.val(args[1])
+	fe.declFun("strings.LastIndex", []string{sStr, sStr}, sInt)
+	r := Term{app("strings.LastIndex", a, b), sInt}
+	if !fe.dry {
+		r = fe.define("lidx", r)
 		fe.emit(fmt.Sprintf("(assert (and (>= %s (- 1)) (<= (+ %s (strlen %s)) (strlen %s))))", r.S, r.S, b.S, a.S))
 	}
 	return one(r)
